@@ -131,3 +131,33 @@ package httpscenario
 //@ requires wfScenario(ammo) && g.base != nil && g.base.Client != nil && ammo.VariableStorage != nil
 //@ may_panic g.base.Aggregator == nil
 //@ at call g.shoot assert [the-ammo-with-its-source-variables] arg(ammo) == ammo0
+
+// ---------------------------------------------------------------- the scenario gun is the HTTP base gun underneath
+
+//@ func (g *ScenarioGun) WarmUp
+//@ props C11 C09
+//@ nilsafe
+//@ requires g.base != nil && g.base.ClientConstructor != nil
+//@ at call g.base.WarmUp assert arg(opts) == opts0
+//@ ensures result0 == result_of(g.base.WarmUp, 0) && result1 == result_of(g.base.WarmUp, 1)
+
+//@ func (g *ScenarioGun) Bind
+//@ props C11 C09
+//@ nilsafe
+//@ requires g.base != nil && deps.Log != nil
+//@ may_panic true
+//@ at call g.base.Bind assert arg(aggregator) == aggregator0 && arg(deps) == deps0
+//@ ensures result == result_of(g.base.Bind, 0)
+
+//@ func (g *ScenarioGun) Do
+//@ props C09 C19
+//@ nilsafe
+//@ requires g.base != nil && g.base.Client != nil
+//@ at call g.base.Client.Do assert [the-request-as-given] arg(req) == req0
+//@ ensures result0 == result_of(g.base.Client.Do, 0) && result1 == result_of(g.base.Client.Do, 1)
+
+//@ func (g *ScenarioGun) Close
+//@ props C09
+//@ nilsafe
+//@ requires g.base != nil
+//@ ensures [close-hook-runs-once] imp(g.base.OnClose != nil, calls(g.base.OnClose) == 1 && result == result_of(g.base.OnClose, 0)) && imp(g.base.OnClose == nil, result == nil)
